@@ -52,7 +52,12 @@ class RecTransition(Transition):
 class FastAdapter(Adapter):
     is_fast = True
 
+    def __init__(self, intr=None):
+        self.intr = intr
+
     def initialize(self, chain_state, transition):
+        if self.intr is not None:
+            self.intr.tick()          # like the initial step size search: calls user model functions
         transition.pp = int(chain_state.pos[0]) % 3 + 50
         return {"sum": 0}
 
@@ -127,9 +132,9 @@ def run_real(seed, inits, p0, n_warm, n_main, stager, adapters_on, has_trace, tr
         init_states = [ChainState(pos=np.array([v], dtype=np.int64)) for v in inits]
     else:
         init_states = [{"pos": np.array([v], dtype=np.int64)} for v in inits]
-    adapters = {"t": [FastAdapter(), SlowAdapter()]} if adapters_on else None
+    adapters = {"t": [FastAdapter(intr), SlowAdapter()]} if adapters_on else None
     if adapters_on == "fast":
-        adapters = {"t": [FastAdapter()]}
+        adapters = {"t": [FastAdapter(intr)]}
     out = sampler.sample_chains(n_warm, n_main, init_states, trace_funcs=[trace] if has_trace else None, adapters=adapters,
                                 stager=stager, n_process=n_process, trace_warm_up=trace_warm_up, display_progress=False,
                                 force_memmap=force_memmap, memmap_path=memmap_path)
